@@ -70,8 +70,9 @@ func (d *TCGEventData) Unmarshal(r io.Reader) error {
 	if err := binary.Read(r, binary.LittleEndian, &size); err != nil {
 		return err
 	}
-	chunk := make([]byte, size)
-	if n, err := r.Read(chunk); err != nil || uint32(n) != size {
+	// The buffer grows with the bytes actually read: the announced size is untrusted.
+	chunk, err := io.ReadAll(io.LimitReader(r, int64(size)))
+	if n := len(chunk); err != nil || uint32(n) != size {
 		return fmt.Errorf("failed to read TCGEventData sized %d (read %d bytes): %w", size, n, err)
 	}
 	if size >= EventSignatureSize {
